@@ -88,3 +88,43 @@ package blake2s
 //@ pred binv(d) = fl(d) >= 0 && fl(d) % 64 == 0 && cntof(d.c) == fl(d) % 18446744073709551616 && implies(d.offset == 0, fl(d) == 0)
 //@ pred tot(d) = fl(d) + d.offset
 //@ pred byt(d, q) = ite(q < fl(d), ghost(&d.c, fbuf)[q], d.block[q - fl(d)])
+
+// ---- C06: BLAKE2X output bookkeeping (BLAKE2X specification section 2) ----
+// total: the output length in bytes (2^32 * 32 when unknown); nodes are numbered from 0, node i is
+// BLAKE2s over the root hash with node offset i in the parameter block and digest length 32 except for
+// a shorter last node; the buffer keeps the unread rest of the last node
+//@ pred xtotal(x) = ite(x.length == 65535, 137438953472, x.length)
+//@ pred xpos(x) = xtotal(x) - x.remaining
+//@ pred xnodes(x) = ite(x.nodeOffset == 0 && xpos(x) > 0, 4294967296, x.nodeOffset)
+//@ pred xbuffered(x) = ite(x.offset > 0, 32 - x.offset, 0)
+//@ pred xinv(x) = 0 <= x.offset && x.offset < 32 && x.remaining <= xtotal(x) && 32 * xnodes(x) - xbuffered(x) == xpos(x) && dinv(&x.d) && (x.cfg[0] == 32 || x.remaining < 32)
+
+//@ func (*digest).initConfig
+//@ props C06
+//@ nonnil cfg
+//@ modifies d.offset
+//@ modifies d.c
+//@ modifies d.h
+//@ ensures d.offset == 0 && d.c[0] == 0 && d.c[1] == 0
+
+//@ func (*xof).Read
+//@ props C06
+//@ assume_global io.EOF != nil
+//@ requires implies(x.readMode, xinv(x)) && implies(!x.readMode, x.remaining == xtotal(x) && x.offset == 0 && x.nodeOffset == 0 && dinv(&x.d) && x.cfg[0] == 32)
+//@ requires ref(p) != ref(x.block[:]) && ref(p) != ref(x.root[:]) && ref(p) != ref(x.cfg[:]) && ref(p) != ref(x.d.block[:])
+//@ modifies heap
+//@ modifies ghost(&x.d.c, flen)
+//@ modifies ghost(&x.d.c, fbuf)
+//@ modifies ghost(&x.d.c, lastflag)
+//@ ensures x.readMode && xinv(x) && x.length == old(x.length)
+// delivers min(len(p), remaining) bytes and advances the output position by exactly that much; EOF exactly at the end
+//@ ensures iff(err != nil, old(x.remaining) == 0) && implies(err != nil, n == 0)
+//@ ensures n == min(len(p), old(x.remaining)) && x.remaining == old(x.remaining) - n
+//@ loop 1 invariant x.readMode && x.length == before(x.length) && x.offset == 0 && dinv(&x.d) && len(p) <= x.remaining && x.remaining <= xtotal(x)
+//@ loop 1 invariant (x.cfg[0] == 32 || x.remaining < 32)
+//@ loop 1 invariant 32 * xnodes(x) == xpos(x) && x.remaining - len(p) == old(x.remaining) - min(len(entry(p)), old(x.remaining))
+//@ loop 1 invariant sameobj(p, entry(p)) && ref(p) != ref(x.block[:]) && ref(p) != ref(x.root[:]) && ref(p) != ref(x.cfg[:]) && ref(p) != ref(x.d.block[:])
+// every node is generated with its own number in the parameter block and digest length 32, or what remains for a shorter last node
+//@ check_at "x.d.finalize(&x.block)" x.cfg[8] + x.cfg[9]*256 + x.cfg[10]*65536 + x.cfg[11]*16777216 == (x.nodeOffset + 4294967295) % 4294967296
+//@ check_at "x.d.finalize(&x.block)" x.cfg[0] == min(32, x.remaining) && 32 * (xnodes(x) - 1) == xpos(x)
+//@ canary ensures n == len(p)
